@@ -837,6 +837,8 @@ class Alg:
                 return INF
         if isinstance(o, _np.ndarray) and o.ndim == 0:
             return Alg.of(o[()])
+        if isinstance(o, (float, _np.floating)) and not float(o).is_integer():
+            return recognise_float(float(o))
         return Alg(Poly.const(o))
 
     @staticmethod
@@ -906,13 +908,16 @@ class Alg:
             return o.as_alg()
         if isinstance(o, (bool, int, float, Fraction, _np.bool_, _np.integer, _np.floating)):
             return Alg.of(o)
-        if isinstance(o, _np.ndarray) and o.ndim == 0 and o.dtype != object:
+        if isinstance(o, _np.ndarray) and o.ndim == 0 and o.dtype != object and o.dtype.kind != "c":
             return Alg.of(o[()])
         return None
 
     def __add__(self, o):
         b = self._coerce(o)
         if b is None:
+            if isinstance(o, (Cx, complex, _np.complexfloating)):
+                o = Cx.of(o)
+                return Cx.of(self) + o
             return NotImplemented
         a = self
         if a.special or b.special:
@@ -940,18 +945,27 @@ class Alg:
     def __sub__(self, o):
         b = self._coerce(o)
         if b is None:
+            if isinstance(o, (Cx, complex, _np.complexfloating)):
+                o = Cx.of(o)
+                return Cx.of(self) - o
             return NotImplemented
         return self + (-b)
 
     def __rsub__(self, o):
         b = self._coerce(o)
         if b is None:
+            if isinstance(o, (Cx, complex, _np.complexfloating)):
+                o = Cx.of(o)
+                return o - Cx.of(self)
             return NotImplemented
         return b + (-self)
 
     def __mul__(self, o):
         b = self._coerce(o)
         if b is None:
+            if isinstance(o, (Cx, complex, _np.complexfloating)):
+                o = Cx.of(o)
+                return Cx.of(self) * o
             return NotImplemented
         a = self
         if a.special or b.special:
@@ -974,6 +988,9 @@ class Alg:
     def __truediv__(self, o):
         b = self._coerce(o)
         if b is None:
+            if isinstance(o, (Cx, complex, _np.complexfloating)):
+                o = Cx.of(o)
+                return Cx.of(self) / o
             return NotImplemented
         a = self
         if a.special or b.special:
@@ -1000,6 +1017,9 @@ class Alg:
     def __rtruediv__(self, o):
         b = self._coerce(o)
         if b is None:
+            if isinstance(o, (Cx, complex, _np.complexfloating)):
+                o = Cx.of(o)
+                return o / Cx.of(self)
             return NotImplemented
         return b / self
 
@@ -1044,6 +1064,8 @@ class Alg:
     def _cmp(self, o, op):
         b = self._coerce(o)
         if b is None:
+            if isinstance(o, (Cx, complex, _np.complexfloating)):
+                return op(Cx.of(self), Cx.of(o))
             return NotImplemented
         a = self
         if a.special or b.special:
@@ -1176,6 +1198,28 @@ numbers.Real.register(Alg)
 
 INF = Alg(ZERO, None, "inf")
 NAN = Alg(ZERO, None, "nan")
+
+
+_FLOAT_MEMO = {}
+
+
+def recognise_float(f):
+    """exact meaning of a non-integer float constant that reaches symbolic arithmetic: a small rational, the square
+    root of a small rational (np.sqrt(3), ...), a rational multiple of pi (math.pi based constants); otherwise the
+    exact binary fraction (documented: such constants are taken at face value)"""
+    import math
+    fr = Fraction(f).limit_denominator(4096)
+    if float(fr) == f:
+        return Alg(Poly.const(fr))
+    sq = Fraction(f * f).limit_denominator(4096)
+    if abs(float(sq) - f * f) <= 4e-16 * max(1.0, f * f) and state.active():
+        r = alg_sqrt(Alg(Poly.const(sq)))
+        return r if f > 0 else -r
+    pq = Fraction(f / math.pi).limit_denominator(360)
+    if abs(float(pq) * math.pi - f) <= 4e-16 * max(1.0, abs(f)) and state.active():
+        from .trig import pi_const
+        return pi_const() * Alg(Poly.const(pq))
+    return Alg(Poly.const(Fraction(f)))
 
 
 def _rational_guess(f):
